@@ -48,6 +48,9 @@ WQ = {
     "po2_4": ("quantized_po2(4)", "quantized_bits(8,4,1,alpha=1)"),
     "po2_mv3": ("quantized_po2(4,max_value=3)", "quantized_bits(8,4,1,alpha=1)"),
     "po2_mv6": ("quantized_po2(4,max_value=6)", "quantized_bits(8,4,1,alpha=1)"),
+    # stochastic kernels (deterministic at inference): same value sets as ternary / binary
+    "sternary": ("stochastic_ternary(alpha=1)", "quantized_bits(4,1,1,alpha=1)"),
+    "sbinary": ("stochastic_binary(alpha=1)", "quantized_bits(4,1,1,alpha=1)"),
 }
 WQ_BASE = ["fixed", "fixed_narrow", "po2", "po2_bias", "binary", "ternary", "auto_po2"]
 IQ = {"q4": "quantized_bits(4,1,1)", "q3": "quantized_bits(3,0,1)", "relu": "quantized_relu(3,1)",
@@ -74,11 +77,20 @@ def enumerate_cases(tier, seed):
     for wq in WQ:
       for use_bias in (True, False):
         for iq in IQ:
-          if (wq not in WQ_BASE or iq not in IQ_BASE) and not (
+          if wq in ("sternary", "sbinary"):
+            if iq != "q4":
+              continue
+          elif (wq not in WQ_BASE or iq not in IQ_BASE) and not (
               wq in ("po2", "po2_4", "po2_mv3", "po2_mv6", "fixed") and (iq not in IQ_BASE or wq not in WQ_BASE)):
             continue
           for pat in PATTERNS:
             out.append(dict(layers=[dict(kind=kind, wq=wq, use_bias=use_bias)], iq=iq, pattern=pat, _seed=seed))
+  # histories: QTools is run on the SAME model object twice - first with other weights (another data-dependent scale), then
+  # with the weights under test: the second report describes the second state
+  for kind in KINDS:
+    for prelude in ("small-first", "large-first"):
+      for pat in ("grid7", "max"):
+        out.append(dict(layers=[dict(kind=kind, wq="auto_po2", use_bias=True)], iq="q4", pattern=pat, prelude=prelude, _seed=seed))
   pairs = [("QConv2D", "QDense"), ("QDense", "QDense"), ("QConv2D", "QDepthwiseConv2D"), ("QDepthwiseConv2D", "QConv2D"),
            ("QConv1D", "QDense")]
   for k1, k2 in pairs:
@@ -183,6 +195,18 @@ def run_case(case):
   k0 = np.asarray(first.get_quantizers()[0](tf.constant(first.get_weights()[0])), dtype=np.float64)
   sym0 = bool(k0.min() < 0 and k0.min() <= -np.abs(k0).max())
   xs = input_patterns(shape, in_den, sym=sym0)
+  if case.get("prelude"):
+    real = [l.get_weights() for l in model.layers]
+    for l in model.layers:
+      if l.get_weights():
+        f = np.float32(1.0 / 64) if case["prelude"] == "small-first" else np.float32(16.0)
+        l.set_weights([(w * f).astype(np.float32) for w in l.get_weights()])
+    model(tf.constant(xs[0]))
+    run_qtools.QTools(model, process="horowitz", source_quantizers=[src_q], is_inference=False,
+                      keras_quantizer="fp32", keras_accumulator="fp32", for_reference=False)
+    for l, ws in zip(model.layers, real):
+      if ws:
+        l.set_weights(ws)
   model(tf.constant(xs[0]))
   qt = run_qtools.QTools(model, process="horowitz", source_quantizers=[src_q], is_inference=False,
                          keras_quantizer="fp32", keras_accumulator="fp32", for_reference=False)
@@ -323,7 +347,7 @@ def run_case(case):
   except Exception as e:  # pylint: disable=broad-except
     bad("analyze_accumulator-raises:%s" % type(e).__name__, "analyze_accumulator raised %s: %s" % (type(e).__name__, str(e)[:160]))
   return {"evals": evals, "transitions": len(xs) + 1, "nontrivial": nontriv,
-          "state": repr([(l["kind"], l["wq"], l["use_bias"]) for l in case["layers"]]) + case["iq"] + case["pattern"],
+          "state": repr([(l["kind"], l["wq"], l["use_bias"]) for l in case["layers"]]) + case["iq"] + case["pattern"] + case.get("prelude", ""),
           "digest": common.digest(digest_acc, [o[0] for o in observed.values() if o]), "violations": viol, "traces": evals,
           "sample": {"program": case["layers"], "input_quantizer": IQ[case["iq"]], "weight_pattern": case["pattern"],
                      "accumulators": digest_acc}}
